@@ -757,28 +757,27 @@ type c20PutRec struct {
 // c20Tr translates the raw datastore calls of the live keystore into events of
 // Model/ResetKeystore.v and keeps the oracle's ghost state.
 type c20Tr struct {
-	store         *c20Store
-	pb            int
-	byDsKey       map[string]int // slot-relative datastore key -> pool id
-	pool          []c20Key
-	events        []string
-	phase         string // idle starting filling clean1 clean2 tearing
-	counted       bool
-	active        int
-	hasKeys       []int
-	batchOpen     bool
-	closing       bool
-	closed        bool
-	puts          []*c20PutRec
-	syncOrd       []int
-	skip          string // non-empty: the run left the modelled fragment (reason)
-	snaps         []c20Ghost
-	branches      map[string]bool
-	cancelInStart bool
-	bs            int
-	batchLen      int
-	flushDue      bool
-	bufM, drnM    []int // mirror of the worker buffer and of the keys taken from it
+	store      *c20Store
+	pb         int
+	byDsKey    map[string]int // slot-relative datastore key -> pool id
+	pool       []c20Key
+	events     []string
+	phase      string // idle starting filling clean1 clean2 tearing
+	counted    bool
+	active     int
+	hasKeys    []int
+	batchOpen  bool
+	closing    bool
+	closed     bool
+	puts       []*c20PutRec
+	syncOrd    []int
+	skip       string // non-empty: the run left the modelled fragment (reason)
+	snaps      []c20Ghost
+	branches   map[string]bool
+	bs         int
+	batchLen   int
+	flushDue   bool
+	bufM, drnM []int // mirror of the worker buffer and of the keys taken from it
 }
 
 func (tr *c20Tr) emit(e string)    { tr.events = append(tr.events, e) }
@@ -955,17 +954,6 @@ func (tr *c20Tr) onReset(ev c20Raw) {
 		return
 	}
 	switch tr.phase {
-	case "wedged":
-	case "orphan":
-		switch {
-		case ev.failed:
-			tr.skip = "fault in opStart"
-		case ev.kind == "commit" && tr.isDelBatch(ev.ops):
-			tr.emit(tr.coqDel(ev.ops))
-		case ev.kind == "sync":
-			tr.emit("EStartDone")
-			tr.phase = "wedged"
-		}
 	case "starting":
 		switch {
 		case ev.failed:
@@ -1038,16 +1026,18 @@ func (tr *c20Tr) onReset(ev c20Raw) {
 	case "clean1":
 		if ev.kind == "put" && ev.key == "/active" {
 			if ev.failed {
+				// the reset has failed: no swap, the teardown of the alternate slot follows
 				tr.emit("EFlipFail")
 				tr.branches["fault-marker-put"] = true
+				tr.phase = "tearing"
 			} else {
 				tr.emit("EFlip")
 				g := tr.snap()
 				g.markPos = len(tr.store.journal) - 1
 				tr.branches["flip"] = true
+				tr.active = 1 - tr.active
+				tr.phase = "clean2"
 			}
-			tr.active = 1 - tr.active
-			tr.phase = "clean2"
 		} else if ev.failed {
 			tr.skip = "fault in clean1"
 		}
@@ -1084,15 +1074,8 @@ func (tr *c20Tr) resetDone() {
 	case "tearing":
 		tr.finish()
 	case "starting":
-		if tr.cancelInStart {
-			// ResetCids gave up waiting for opStart: the worker is still inside it
-			tr.emit("EStartCancel")
-			tr.phase = "orphan"
-			tr.branches["cancel-during-opstart"] = true
-		} else {
-			tr.emit("EStartFail")
-			tr.phase = "idle"
-		}
+		tr.emit("EStartFail")
+		tr.phase = "idle"
 	case "filling":
 		if !tr.closed {
 			tr.skip = "ResetCids returned in phase filling without Close"
@@ -1248,6 +1231,15 @@ func c20RunReset(t *testing.T, r *vfRand, pool []c20Key, ids map[string]int, cfg
 		}
 	}()
 	synctest.Test(t, func(t *testing.T) {
+		defer func() {
+			if os.Getenv("C20_NORECOVER") != "" {
+				return
+			}
+			if e := recover(); e != nil { // a panic of the driver itself
+				out.fails = append(out.fails, fmt.Sprint("panic in the reset driver: ", e))
+				out.failKind = "content"
+			}
+		}()
 		bg := context.Background()
 		store := c20NewStore()
 		opts := []ResettableKeystoreOption{KeystoreOption(WithPrefixBits(cfg.pb), WithBatchSize(cfg.bs))}
@@ -1399,7 +1391,7 @@ func c20RunReset(t *testing.T, r *vfRand, pool []c20Key, ids map[string]int, cfg
 				if opp == cfg.cancelAt {
 					store.mu.Lock()
 					if tr.phase == "starting" {
-						tr.cancelInStart = true
+						out.branches["cancel-during-opstart"] = true
 					}
 					store.mu.Unlock()
 					cancel()
@@ -1563,19 +1555,6 @@ func c20RunReset(t *testing.T, r *vfRand, pool []c20Key, ids map[string]int, cfg
 			doRelease()
 			synctest.Wait()
 		}
-		// after an aborted reset (whatever it left in the alternate slot) a further one must work
-		if out.resetErr != "" && !tr.closed && phaseNow == "idle" && cfg.again != nil {
-			if err := reset(cfg.again, false); err != nil {
-				out.fails = append(out.fails, "a reset after an aborted reset failed: "+err.Error())
-				out.failKind = "content"
-			}
-			out.branches["reset-after-abort"] = true
-		}
-
-		for isParked() { // a call still parked although ResetCids has returned
-			doRelease()
-			synctest.Wait()
-		}
 		// liveness probe: does the worker still answer?
 		wedged := false
 		if !tr.closed {
@@ -1590,6 +1569,19 @@ func c20RunReset(t *testing.T, r *vfRand, pool []c20Key, ids map[string]int, cfg
 				out.fails = append(out.fails, "the worker goroutine is blocked forever: Size() does not return after ResetCids returned "+out.resetErr)
 				out.failKind = "wedged"
 			}
+		}
+		// after an aborted reset (whatever it left in the alternate slot) a further one must work
+		if out.resetErr != "" && !tr.closed && !wedged && phaseNow == "idle" && cfg.again != nil {
+			if err := reset(cfg.again, false); err != nil {
+				out.fails = append(out.fails, "a reset after an aborted reset failed: "+err.Error())
+				out.failKind = "content"
+			}
+			out.branches["reset-after-abort"] = true
+		}
+
+		for isParked() { // a call still parked although ResetCids has returned
+			doRelease()
+			synctest.Wait()
 		}
 		if !wedged {
 			for _, p := range allPending {
@@ -1837,7 +1829,7 @@ func c20ResetCase(t *testing.T, cs *vfCases, r *vfRand, i int, seed uint64) {
 	if out.branches["fault-marker-put"] {
 		cfg.hazard = "marker-put-fail"
 	}
-	if out.wedged {
+	if out.branches["cancel-during-opstart"] {
 		cfg.hazard = "cancel-during-opstart"
 	}
 	var sigs []string
